@@ -135,6 +135,7 @@ func UnTarIndex(ctx context.Context, fs FilesystemWriter, index Index, s Store, 
 		defer w.Close() // No more chunks to come, stop the untar
 	loop:
 		for {
+			verifYield("UnTarIndex.assemble")
 			select {
 			case data := <-assemble:
 				if data == nil {
